@@ -51,8 +51,11 @@ fn lt_major_only_tuples(ast: &RangeAst) -> Vec<(u64, u64, u64)> {
     let mut out = vec![];
     for (p, op) in ast.all_partials() {
         if op == Some(Op::Lt) {
-            if let (Some(a), None, _, _) = npm::norm(p) {
-                out.push((a, 0, 0));
+            match npm::norm(p) {
+                (Some(a), None, _, _) => out.push((a, 0, 0)),
+                // `<x` becomes `<0.0.0`: the same missing `-0`
+                (None, _, _, _) => out.push((0, 0, 0)),
+                _ => {}
             }
         }
     }
@@ -60,6 +63,9 @@ fn lt_major_only_tuples(ast: &RangeAst) -> Vec<(u64, u64, u64)> {
 }
 
 pub fn check_case(c: &Case, st: &mut Stats) -> Result<(), Failure> {
+    if !c.ast.well_formed() {
+        return Ok(());
+    }
     for (open, hit) in [(F_WILD, c.ast.has_wildcard_misplaced()), (F_HYPHEN, c.ast.has_lowerless_hyphen()), (F_EMPTY, c.ast.has_empty_alternative())] {
         if hit && findings::is_open(open) {
             st.known(open);
@@ -236,6 +242,49 @@ pub fn strategy() -> BoxedStrategy<Case> {
         .boxed()
 }
 
+/// ranges produced by intersect/difference: satisfies() must follow the gate as the printed bounds
+/// state it (a prerelease needs a prerelease bound on its tuple in the interval whose bounds it meets)
+pub fn check_result(e: &crate::gen::ranges::Expr, st: &mut Stats) -> Result<(), Failure> {
+    use crate::props::alg::{eval, Ev};
+    let v = match eval(e) {
+        Ev::Ok(v) => v,
+        Ev::Discard => {
+            st.discarded += 1;
+            return Ok(());
+        }
+        Ev::Fail(f) => return Err(f),
+    };
+    let r = match &v.range {
+        Some(r) => r,
+        None => {
+            st.discarded += 1;
+            return Ok(());
+        }
+    };
+    let pv = probes::probes(&v.model.bound_versions(), &[]);
+    let mut decided = false;
+    for p in &pv {
+        let cp = p.to_crate();
+        let got = guard(|| r.satisfies(&cp)).map_err(|m| Failure::new("satisfies-panics", format!("{} = {:?}: satisfies({}) panicked: {}", e.show(), v.text, p.text(), m)))?;
+        let exp = v.model.satisfies(p);
+        st.eval(1);
+        if p.is_pre() && v.model.in_bounds(p) {
+            decided = true;
+            st.class(if exp { "result:gate-passes" } else { "result:gate-blocks" });
+        }
+        if got != exp {
+            return Err(Failure::new(
+                "prerelease-gate-on-result",
+                format!("{} = {:?}: satisfies({}) = {} but by the printed bounds and the prerelease rule it should be {}", e.show(), v.text, p.text(), got, exp),
+            ));
+        }
+    }
+    if decided && e.depth() > 0 {
+        st.nontrivial(&v.text, || json!({"expr": e.show(), "value": v.text}));
+    }
+    Ok(())
+}
+
 pub fn run(cfg: &RunCfg) -> PropRun {
     let mut run = PropRun::default();
     run.rule = "ASTs in which most three-component comparators carry prerelease tags (through < <= > >= = bare ~ ^ and both hyphen operands) plus the implicit -0 uppers, x prerelease probes on the same tuple as each comparator (tag before / equal / after / longer / shorter), on neighbouring patch/minor/major tuples, on unrelated tuples, releases, each also with build metadata. Oracle: (i) npm gate computed from the AST, (ii) stripping/adding build metadata on the version or on every comparator never changes an answer, (iii) releases: satisfies == membership in the printed bounds, (iv) max/min_satisfying over the probe list never return a prerelease the gate rejects. Non-trivial = some prerelease probe lies inside the bounds of an alternative (the gate, not the bounds, decides); distinct by range text.".into();
@@ -245,6 +294,15 @@ pub fn run(cfg: &RunCfg) -> PropRun {
         return run;
     }
     let out = campaign(cfg, ID, "gate", cfg.pick(300_000, 3_000_000), strategy, check_case);
+    run.absorb(out);
+    let out = campaign(
+        cfg,
+        ID,
+        "results",
+        cfg.pick(200_000, 2_000_000),
+        || crate::gen::ranges::vpool().prop_flat_map(|pool| crate::gen::ranges::expr_with_any(pool, 2, 3)),
+        check_result,
+    );
     run.absorb(out);
     // required class shares (generator health, not a verdict about the crate)
     let pass = run.stats.class_count("gate-passes");
@@ -265,7 +323,12 @@ pub fn run(cfg: &RunCfg) -> PropRun {
     run
 }
 
-pub fn replay(_campaign: &str, case: &Value) -> Result<(), Failure> {
-    let c: Case = serde_json::from_value(case.clone()).map_err(|e| Failure::new("bad-replay", e.to_string()))?;
+pub fn replay(campaign: &str, case: &Value) -> Result<(), Failure> {
+    let bad = |e: serde_json::Error| Failure::new("bad-replay", e.to_string());
+    if campaign == "results" {
+        let e: crate::gen::ranges::Expr = serde_json::from_value(case.clone()).map_err(bad)?;
+        return check_result(&e, &mut Stats::default());
+    }
+    let c: Case = serde_json::from_value(case.clone()).map_err(bad)?;
     check_case(&c, &mut Stats::default())
 }
